@@ -41,20 +41,28 @@ fn flatten_object(prefix: &str, val: &Value, config: &mut HashMap<String, Value>
 
 fn to_emmyrc_json(config: &FlattenConfigObject) -> Value {
     let mut emmyrc = Value::Object(Default::default());
-    for (k, v) in &config.config {
-        let keys: Vec<&str> = k.split('.').collect();
+    // Sorted, so that a key that is both a value and a prefix (`"a": 1` next to `"a.b": 2`)
+    // is resolved the same way on every load: the prefix comes first and the more specific
+    // key then replaces it.
+    let mut entries: Vec<(&String, &Value)> = config.config.iter().collect();
+    entries.sort_by(|a, b| a.0.cmp(b.0));
+    for (k, v) in entries {
+        let mut keys = k.split('.').peekable();
         let mut current = &mut emmyrc;
-        for i in 0..keys.len() {
-            let key = keys[i];
-            if i == keys.len() - 1 {
-                current[key] = v.clone();
-            } else {
-                current = current
-                    .as_object_mut()
-                    .expect("always an object")
-                    .entry(key.to_string())
-                    .or_insert(Value::Object(Default::default()));
+        while let Some(key) = keys.next() {
+            if !current.is_object() {
+                *current = Value::Object(Default::default());
             }
+            let Value::Object(map) = current else {
+                break;
+            };
+            if keys.peek().is_none() {
+                map.insert(key.to_string(), v.clone());
+                break;
+            }
+            current = map
+                .entry(key.to_string())
+                .or_insert_with(|| Value::Object(Default::default()));
         }
     }
     emmyrc
